@@ -18,6 +18,11 @@ type xgen struct {
 	spacing bool // generate whitespace codes
 	parens  bool // generate redundant parentheses
 	nspy    int
+	// names in scope beyond the context (loop variables, set variables, loop counters) with a
+	// representative value used for generation-time domain checks
+	scope     map[string]interface{}
+	extraInts []*E
+	extraStrs []*E
 }
 
 // stdCtx draws the standard context used by the expression checks.
@@ -53,7 +58,11 @@ func stdCtx(t *rapid.T) Ctx {
 
 func (g *xgen) eval(e *E) (interface{}, error) {
 	m := &Model{}
-	env := &Env{vars: g.ctx.Model(), m: m}
+	vars := g.ctx.Model()
+	for k, v := range g.scope {
+		vars[k] = v
+	}
+	env := &Env{vars: vars, m: m}
 	return env.Eval(e)
 }
 
@@ -92,6 +101,10 @@ func (g *xgen) listLen(name string) int {
 }
 
 func (g *xgen) intAtom() *E {
+	if len(g.extraInts) > 0 && g.pick(3, "useextra") == 0 {
+		cp := *g.extraInts[g.pick(len(g.extraInts), "extraint")]
+		return &cp
+	}
 	switch g.pick(13, "intatom") {
 	case 0, 1:
 		return Int(int64(rapid.IntRange(0, 99).Draw(g.t, "lit")))
@@ -192,6 +205,10 @@ func toI(v interface{}) int64 {
 var strLits = []string{"", "a", "ab", "Hello", "x y", "it's", "say \"hi\"", "a,b", "é", "<b>", "T", "F", "zz"}
 
 func (g *xgen) strAtom() *E {
+	if len(g.extraStrs) > 0 && g.pick(3, "useextra") == 0 {
+		cp := *g.extraStrs[g.pick(len(g.extraStrs), "extrastr")]
+		return &cp
+	}
 	switch g.pick(8, "stratom") {
 	case 0, 1:
 		e := Str(rapid.SampledFrom(strLits).Draw(g.t, "slit"))
